@@ -331,6 +331,47 @@ fn hash_checks(g: &mut Gen, out: &mut Out, n_tx: usize, n_blk: usize) {
             if v2.data().transactions().as_slice() != block.transactions().as_slice() || v2.data().uncles().as_slice() != block.uncles().as_slice() {
                 bad.push("into_view changed the body".into());
             }
+            // a view reassembled from its parts, as the store does (new_unchecked / new_unchecked_with_extension)
+            {
+                let parts = block.clone().into_view_without_reset_header();
+                let body: Vec<core::TransactionView> = parts.transactions();
+                let v4 = match parts.extension() {
+                    Some(e) => core::BlockView::new_unchecked_with_extension(parts.header(), parts.uncles(), body, parts.data().proposals(), e),
+                    None => core::BlockView::new_unchecked(parts.header(), parts.uncles(), body, parts.data().proposals()),
+                };
+                if v4.data().as_slice() != block.as_slice() { bad.push("reassembled view: packed bytes differ".into()); }
+                if v4.hash() != parts.hash() { bad.push("reassembled view: block hash".into()); }
+                if v4.tx_hashes().iter().map(h32).collect::<Vec<_>>() != txh { bad.push("reassembled view: cached tx hashes".into()); }
+                if v4.tx_witness_hashes().iter().map(h32).collect::<Vec<_>>() != wth { bad.push("reassembled view: cached tx witness hashes".into()); }
+                if v4.transactions().iter().map(|t| h32(&t.witness_hash())).collect::<Vec<_>>() != wth { bad.push("reassembled view: witness hash of the transaction views".into()); }
+                if v4.uncle_hashes().into_iter().map(|h| h32(&h)).collect::<Vec<_>>() != unh { bad.push("reassembled view: cached uncle hashes".into()); }
+                if h32(&v4.calc_transactions_root()) != want_root { bad.push("reassembled view: calc_transactions_root".into()); }
+            }
+            // index accessors of the views take peer-supplied indexes (GetBlockTransactions): in range they
+            // answer, at and beyond the end they answer None, never panic
+            {
+                let parts = block.clone().into_view_without_reset_header();
+                let nu = parts.uncles().data().len();
+                let nt = parts.transactions().len();
+                for i in [0usize, nu.saturating_sub(1), nu, nu + 1, u32::MAX as usize] {
+                    let r = std::panic::catch_unwind(AssertUnwindSafe(|| parts.uncles().get(i).is_some()));
+                    match r { Ok(some) => if some != (i < nu) { bad.push(format!("uncles().get({i}) with {nu} uncles answers {some}")); }, Err(_) => bad.push(format!("uncles().get({i}) with {nu} uncles panics")) }
+                }
+                for i in [0usize, nt.saturating_sub(1), nt, nt + 1, u32::MAX as usize] {
+                    let r = std::panic::catch_unwind(AssertUnwindSafe(|| parts.transaction(i).is_some()));
+                    match r { Ok(some) => if some != (i < nt) { bad.push(format!("transaction({i}) with {nt} transactions answers {some}")); }, Err(_) => bad.push(format!("transaction({i}) with {nt} transactions panics")) }
+                }
+                for tx in parts.transactions().iter().take(3) {
+                    let no = tx.outputs().len();
+                    // output_with_data requires outputs_data to be as long as outputs (checked by the
+                    // non-contextual verifier before anything uses it): asked only then
+                    let paired = tx.outputs_data().len() == no;
+                    for i in [0usize, no.saturating_sub(1), no, no + 1] {
+                        let r = std::panic::catch_unwind(AssertUnwindSafe(|| (tx.output(i).is_some(), if paired { tx.output_with_data(i).is_some() } else { tx.output(i).is_some() })));
+                        match r { Ok((a, b)) => if a != (i < no) || (b && !a) { bad.push(format!("output({i}) / output_with_data({i}) with {no} outputs answer {a} / {b}")); }, Err(_) => bad.push(format!("output({i}) with {no} outputs panics")) }
+                    }
+                }
+            }
             // the advanced builder (BlockBuilder::build resets the header) must commit to the same content
             let v3 = view.as_advanced_builder().build();
             let raw3 = v3.data().header().raw();
